@@ -8,16 +8,19 @@ NT == Len(Traces)
 VARIABLES t, l
 ASSUME \A i \in 1 .. NT : TLCSet(i, 1)
 Ev == Traces[t][l]
+(* the module's own predicates agree with the property's definition of busy *)
+Predicates == Ev.isbusy = Busy(Ev.code) /\ Ev.isdriving = Driving(Ev.code)
 TInit == HInit /\ t \in 1 .. NT /\ l = 1
 
 TStep == /\ l <= Len(Traces[t])
          /\ l' = l + 1 /\ t' = t
-         /\ \/ Ev.ev = "started" /\ Started
+         /\ \/ Ev.ev = "started" /\ Started(Ev.fast)
             \/ Ev.ev = "stopreq" /\ StopReq(Ev.active, Ev.st)
             \/ Ev.ev = "final" /\ Final(Ev.st)
+            \/ Ev.ev = "oncleanup" /\ OnCleanup(Ev.kind, Ev.reason)
             \/ Ev.ev = "hook" /\ Hook(Ev.to, Ev.task, Ev.reason)
-            \/ Ev.ev = "update" /\ Update(Ev.busy, Ev.st, Ev.own)
-            \/ Ev.ev = "quiet" /\ Quiet(Ev.active, Ev.pending, Ev.busy, Ev.st)
+            \/ Ev.ev = "update" /\ Update(Ev.code, Ev.st, Ev.own) /\ Predicates
+            \/ Ev.ev = "quiet" /\ Quiet(Ev.active, Ev.pending, Ev.code, Ev.st, Ev.fast) /\ Predicates
 TSpec == TInit /\ [][TStep]_<<hvars, t, l>>
 Track == TLCSet(t, IF l > TLCGet(t) THEN l ELSE TLCGet(t))
 Verdicts == \A i \in 1 .. NT :
